@@ -283,6 +283,7 @@ def run(eng, rep):
                 "result must reach change_point/add_new_point/save_point unless nothing was evaluated or the value is NaN; the incumbent save "
                 "dominates every point-moving call in soft_restart (T2); decision tables of all selection guards over {lo<hi} (T6); every "
                 "return of solve_main takes its record from one get_final_results() call after the last mutation (T2).")
+    rep.explain('Also decided: the incumbent is overwritten only by a point known to be better (C04-5); selection tables are computed by walking the CFG to the store for every row of the order domain.')
     rep.not_decided += ["'a later run can only improve on an earlier one' beyond the merge guard", "anything about objective values themselves"]
     rule_results_consumed(eng, rep)
     rule_incumbent_saved_before_restart(eng, rep)
